@@ -105,3 +105,11 @@ SHARDS.update({
     "urwid/vterm.py:TermCanvas.csi_set_attr": (12, 6),
     "urwid/vterm.py:TermCanvas.sgi_to_attrspec": (6, 4),
 })
+
+# TextCanvas.content on canvases of two / three spelled-out rows (contracts/C02_content.py): every row window x every column
+# window x with / without a map; ~3 min / ~10 min on one core
+SHARDS.update({
+    "urwid/canvas.py:TextCanvas.content#two-rows": (8, 8),
+    "urwid/canvas.py:TextCanvas.content#three-rows": (16, 10),
+})
+THOROUGH_ONLY += ("urwid/canvas.py:TextCanvas.content#three-rows",)
